@@ -160,11 +160,14 @@ def o3b(h, st):
 ALPHA = [("H", [0], None), ("RZ", [0], None), ("RX", [1], None), ("CNOT", [1], [0]), ("CRZ", [1], [0]), ("PHASE", [2], None),
          ("CPHASE", [2], [1]), ("X", [2], None), ("SWAP", [1, 2], None), ("RY", [0], None), ("CRX", [2], [0]), ("XX", [0, 1], None), ("S", [1], None),
          # same name and same qubit set as entry 4 / 10 with the roles of control and target exchanged, and a different control set
-         ("CRZ", [0], [1]), ("CRX", [0], [2]), ("CRZ", [1], [0, 2]), ("CPHASE", [1], [2]), ("XX", [1, 0], None), ("SWAP", [2, 1], None)]
+         ("CRZ", [0], [1]), ("CRX", [0], [2]), ("CRZ", [1], [0, 2]), ("CPHASE", [1], [2]), ("XX", [1, 0], None), ("SWAP", [2, 1], None),
+         # DIFFERENT rotation kinds about the same axis on exactly the same target / control as entries 4, 1, 6 (RZ and PHASE differ by a phase that
+         # is global only when the gate is not controlled)
+         ("CPHASE", [1], [0]), ("PHASE", [0], None), ("CRZ", [2], [1])]
 
 
 def small_circuits(tier, maxlen, alpha=None):
-    alpha = alpha if alpha is not None else (list(range(8)) if tier == "quick" else list(range(len(ALPHA))))
+    alpha = alpha if alpha is not None else (list(range(8)) if tier == "quick" else list(range(19)))
     out = []
     for L in range(0, maxlen + 1):
         for combo in itertools.product(alpha, repeat=L):
@@ -348,10 +351,11 @@ def o6(h, st):
 
 @contract("C09", "O7.merge_rotations", targets=[(C, "merge_rotations")], level="S",
           structures=lambda tier: [{"gates": g} for g in small_circuits(tier, 3, alpha=[1, 2, 3, 4, 5, 6] if tier == "quick" else [0, 1, 2, 3, 4, 5, 6, 9, 10])] +
-                                  [{"gates": g} for g in small_circuits(tier, 2 if tier == "quick" else 3, alpha=[4, 13, 15, 10, 14, 6, 16, 11, 17]) if len(g) >= 2],
+                                  [{"gates": g} for g in small_circuits(tier, 2 if tier == "quick" else 3, alpha=[4, 13, 15, 10, 14, 6, 16, 11, 17]) if len(g) >= 2] +
+                                  [{"gates": g} for g in small_circuits(tier, 3, alpha=[4, 19, 1, 20]) if len(g) >= 2] + [{"gates": g} for g in ([6, 21], [21, 6], [21, 6, 21])],
           native_samples=angle_samples)
 def o7(h, st):
-    """ensures U(result) == U(input) exactly, for every value of every angle; the input circuit (its gates included) is unchanged"""
+    """ensures U(result) == lambda U(input) (a global phase, as the property allows), for every value of every angle; the input circuit (its gates included) is unchanged"""
     n = 3
     gates = build(h, st["gates"], variational=True)
     c = mk_circuit(gates)
@@ -359,7 +363,7 @@ def o7(h, st):
     U1, A = circ_rows(c._gates, n, h)
     out = h.call(C, "merge_rotations", c)
     U2, _ = circ_rows(out._gates, n, h)
-    h.mat_equal("U(result) == U(input)", U2, U1, A, n)
+    h.mat_equal("U(result) == lambda U(input)", U2, U1, A, n, up_to_phase=True)
     h.check("input circuit unchanged", snapshot(c.__dict__) == before)
     h.check("no gate added", len(out._gates) <= len(gates))
     h.done()
@@ -369,7 +373,8 @@ def o7(h, st):
 
 @contract("C09", "O8.simplify", targets=[(C, "simplify"), (C, "Circuit.copy"), (C, "Circuit.remove_small_rotations"), (C, "Circuit.remove_redundant_gates")],
           level="S", structures=lambda tier: [{"gates": g} for g in small_circuits(tier, 3, alpha=[1, 3, 4, 7] if tier == "quick" else [0, 1, 3, 4, 5, 7])] +
-                                  [{"gates": g} for g in small_circuits(tier, 2, alpha=[4, 13, 10, 14, 15]) if len(g) == 2],
+                                  [{"gates": g} for g in small_circuits(tier, 2, alpha=[4, 13, 10, 14, 15]) if len(g) == 2] +
+                                  [{"gates": g} for g in small_circuits(tier, 2, alpha=[4, 19, 1, 20]) if len(g) == 2],
           native_samples=angle_samples, max_paths=300)
 def o8(h, st):
     """ensures U(result) = lambda U(input) for angles away from the thresholds; input circuit unchanged"""
